@@ -3,7 +3,8 @@
 import numpy as np
 from hypothesis import strategies as st
 
-from EasyFEA import AlgoType, Models, Simulations
+from EasyFEA import AlgoType, MatrixType, Models, Simulations
+from EasyFEA.FEM import FeArray
 
 from vlib import gen_beam as gb
 from vlib import gen_mesh as gm
@@ -353,8 +354,10 @@ def hyper_cases(draw):
         r = draw(gm.recipes3d(types=["TETRA4", "PRISM6", "HEXA8"], affine_ok=False, nmax=4))
     law = draw(st.sampled_from(["NeoHookean", "MooneyRivlin", "SaintVenantKirchhoff", "CiarletGeymonat"]))
     vec = lambda lo, hi, den: [draw(st.integers(lo, hi)) / den for _ in range(dim)]  # noqa
+    # active fibre stress tau * (T (x) T): the fibre direction is carried by the isometry with the rest of the problem
+    active = dict(tau=draw(st.sampled_from([0.05, 0.1, -0.05])), ang=draw(st.integers(0, 11))) if draw(st.integers(0, 2)) == 0 else None
     return dict(recipe=r, law=law, iso=draw(isometries(dim)), dirang=draw(st.integers(0, 11)), ud=vec(-3, 3, 100.0),
-                trac=vec(-4, 4, 40.0), body=vec(-4, 4, 40.0))
+                trac=vec(-4, 4, 40.0), body=vec(-4, 4, 40.0), active=active)
 
 
 def _hyper_law(name, dim):
@@ -378,7 +381,7 @@ def check_hyper(case, rec):
     iso = case["iso"]
     Q, fmap = iso_matrix(iso)
     sig = dict(elemType=r["elemType"], types=types, law=case["law"], dim=dim, iso=iso["kind"])
-    rec.label("hyper:" + case["law"], "types:" + types, "iso:" + iso["kind"])
+    rec.label("hyper:" + case["law"], "types:" + types, "iso:" + iso["kind"], "active_stress" if case.get("active") else "passive")
     mesh2 = move_mesh(mesh, iso)
     X = np.asarray(mesh.coord, float)
     ang = case["dirang"] * np.pi / 6
@@ -395,6 +398,17 @@ def check_hyper(case, rec):
             mat = _hyper_law(case["law"], dim)
         except TypeError:
             raise Inconclusive("law constructor signature differs")
+        act = case.get("active")
+        if act:
+            groups = gm.main_groups(m)
+            if len(groups) != 1:
+                raise Inconclusive("fibre field given per Gauss point of a single element group")
+            a = act["ang"] * np.pi / 6 + 0.2
+            t0 = np.array([np.cos(a), np.sin(a), 0.4 if dim == 3 else 0.0])
+            t = Qm @ t0
+            nPg = groups[0].Get_gauss(MatrixType.rigi).nPg
+            mat.Set_active_stress_vec(FeArray.asfearray(np.tile(t, (groups[0].Ne, nPg, 1))))  # as the callers in the repository do
+            mat.active_stress = float(act["tau"])
         simu = Simulations.HyperElastic(m, mat)
         Qd = Qm[:dim, :dim]
         simu.add_dirichlet(sets[0], [float(v) for v in Qd @ np.array(case["ud"], float)], unk)
@@ -413,7 +427,7 @@ def check_hyper(case, rec):
     used = gm.used_nodes(mesh)
     rec.close((u2 - u1 @ Q[:dim, :dim].T)[used], np.abs(u1).max() + 1e-6, 1e-6, "u_rotated_hyperelastic",
               f"{case['law']} {types} {iso['kind']} theta={iso['theta']}: u' != Q u", **sig)
-    rec.nontrivial(nontrivial_iso(iso) and any(abs(v) > 0 for k in ("ud", "trac", "body") for v in case[k]))
+    rec.nontrivial(nontrivial_iso(iso) and (bool(case.get("active")) or any(abs(v) > 0 for k in ("ud", "trac", "body") for v in case[k])))
 
 
 SUBS.append(Sub("hyperelastic", check_hyper, gen=hyper_cases, quick=60, thorough=400, shards=6))
